@@ -337,4 +337,7 @@ func init() {
 		HarnessSpec{Name: "VerifH_serveHTTP_encoding", Covers: []string{"plain-response", "compressed-request"}})
 	ext("C03", "request body sent with Content-Encoding (marking compressor) reaches the codec decompressed",
 		HarnessSpec{Name: "VerifH_serveHTTP_encoding", Covers: []string{"compressed-request"}})
+
+	ext("C06", "AsHTTPBodyReader / AsHTTPBodyWriter raw passthrough: uploads of 0..5 symbolic bytes over every read partition, downloads of 0..3 bytes, symbolic content type",
+		HarnessSpec{Name: "VerifH_httpbody_passthrough", Covers: []string{"reader", "writer"}})
 }
